@@ -28,6 +28,7 @@ import sys
 from . import common
 from .common import Check, sx
 from .evutil import BASE, dt, ev_unwire, ev_view, ev_wire, mk_event
+from .txhist import strict_eq
 
 RULE = ("corpus witness w11, then sorted non-overlapping list pairs on an integer grid (exhaustive "
         "0..4 x <=2 events a side + seeded sample of 0..8 x <=3 in quick; exhaustive 0..8 x <=3 in "
@@ -144,8 +145,9 @@ def full_view(e):
     return (e.id, us_of_dt(e.timestamp), us_of_td(e.duration), copy.deepcopy(e.data))
 
 
-def run_impl(case, Event, uno):
-    """-> (("ok", [full views]) | ("err", class name), not-modified message or None)"""
+def run_impl(case, Event, uno, live=None):
+    """-> (("ok", [full views]) | ("err", class name), not-modified message or None)
+    `live` (round 3, harness/c15_hist.py): the two live argument lists of a call sequence instead of fresh objects."""
     if case["kind"] == "split":
         t, d, x, i = case["e"]
         e = mk_event(Event, t, d, copy.deepcopy(x), i)
@@ -156,8 +158,11 @@ def run_impl(case, Event, uno):
         except Exception as ex:  # noqa: BLE001
             out = ("err", type(ex).__name__)
         return out, _unmodified([e], snap)
-    a = [mk_event(Event, t, d, copy.deepcopy(x), i) for t, d, x, i in case["a"]]
-    b = [mk_event(Event, t, d, copy.deepcopy(x), i) for t, d, x, i in case["b"]]
+    if live is not None:
+        a, b = live
+    else:
+        a = [mk_event(Event, t, d, copy.deepcopy(x), i) for t, d, x, i in case["a"]]
+        b = [mk_event(Event, t, d, copy.deepcopy(x), i) for t, d, x, i in case["b"]]
     a0, b0 = list(a), list(b)
     sa, sb = _snapshot(a), _snapshot(b)
     try:
@@ -215,16 +220,16 @@ def oracle_union(case, out, provenance=True):
         # every list-one event is returned unchanged (as a sub-multiset; order/provenance not decidable here)
         rest = list(out)
         for e in a:
-            if e in rest:
-                rest.remove(e)
-            else:
+            k = next((j for j, o in enumerate(rest) if strict_eq(o, e)), None)
+            if k is None:
                 return f"list-one-intact: list-one event {e[:3]} is not returned unchanged"
+            del rest[k]
         return None
     akeys = [e[3]["k"] for e in a]
     bkey = {e[3]["k"]: e for e in b}
     # (1) the list-one events of the result are exactly list one, in order, unchanged
     out_a = [o for o in out if isinstance(o[3], dict) and o[3].get("k") in akeys]
-    if out_a != a:
+    if not strict_eq(out_a, a):       # typed: "unchanged" means the very values (True is not 1), ids included
         return f"list-one-intact: list-one events in the result {[o[:3] for o in out_a]} differ from list one {[e[:3] for e in a]}"
     # (2) every other returned event is a piece of one list-two event
     pieces = {k: [] for k in bkey}
@@ -235,7 +240,7 @@ def oracle_union(case, out, provenance=True):
         f = bkey.get(k)
         if f is None:
             return f"pieces: returned event {o} comes from neither list"
-        if o[3] != f[3] or o[0] != f[0]:
+        if not strict_eq(o[3], f[3]) or o[0] != f[0]:
             return f"pieces: piece {o} does not keep the data/id of its source {f}"
         if not (f[1] <= o[1] and o[1] + o[2] <= f[1] + f[2] and o[2] >= 0):
             return f"pieces: piece {o[:3]} does not lie inside its source {f[:3]}"
@@ -537,6 +542,8 @@ def main(argv=None):
         with multiprocessing.get_context("fork").Pool(max(1, min(16, (os.cpu_count() or 2) - 1))) as pool:
             for S in pool.starmap(process, [(c, have_driver) for c in chunks]):
                 absorb(ck, S)
+    from . import c15_hist          # round 3: the query layer, call sequences on live objects, >= 10 001 events a side
+    c15_hist.run(ck, sys.modules[__name__], _impl()[0], _impl()[1], have_driver)
     # Off the millisecond grid (documented known finding, same root cause as C10:off-ms-grid): Event floors an
     # assigned timestamp to the ms but keeps microsecond durations, so a split at an off-grid instant shifts the
     # second half.  Measured on every run on a fixed witness; reported only while listed open in known_findings.json.
